@@ -38,9 +38,9 @@ theorem readUntil_interrupted (s : Sched) (acc : List UInt8) :
     readUntil (dropIntr s) acc = ((readUntil s acc).1, dropIntr (readUntil s acc).2) :=
   readUntil_dropIntr s acc
 
-/-- `read_exact` retries on `Interrupted`. -/
-theorem readByte_interrupted (s : Sched) :
-    readByte (dropIntr s) = ((readByte s).1, dropIntr (readByte s).2) := readByte_dropIntr s
+/-- `next_byte` retries on `Interrupted`. -/
+theorem nextByte_interrupted (s : Sched) :
+    nextByte (dropIntr s) = ((nextByte s).1, dropIntr (nextByte s).2) := nextByte_dropIntr s
 
 /-- all lines (and the error ending the reading, if any) are unchanged. -/
 theorem readAll_interrupted (enc : Encoding) (s : Sched) :
@@ -49,10 +49,7 @@ theorem readAll_interrupted (enc : Encoding) (s : Sched) :
 
 theorem decodeSched_dropIntr (D : LineDecoder σ) (s : Sched) :
     decodeSched D (dropIntr s) = decodeSched D s := by
-  unfold decodeSched
-  rw [readBom_dropIntr]
-  cases readBom s with
-  | mk r s1 => cases r <;> simp [readAll_interrupted]
+  rw [decodeSched_spec, decodeSched_spec, pre_dropIntr, firstFail_dropIntr]
 
 /-- **Transient interruptions do not change the outcome**: two schedules that differ only in
 where (and how many) `Interrupted` results are reported decode identically — whether decoding
@@ -127,53 +124,52 @@ theorem readAll_bytes (enc : Encoding) (s : Sched) (h : noFail s = true) :
     unfold Sched.ofBytes
     cases hb : (Sched.bytes s) <;> simp [Sched.firstFail]
 
-/-- BOM sniffing over any chunking whose first non-empty chunk has at least three bytes. -/
-theorem bom_any_chunking_partial (s₁ s₂ : Sched) (h₁ : bomOk s₁ = true) (h₂ : bomOk s₂ = true)
+/-- **BOM sniffing over any chunking**: `read_bom` collects the first three bytes however they are
+delivered; same encoding, and the same bytes (leftover prefix first) and fault remain to be read. -/
+theorem bom_any_chunking (s₁ s₂ : Sched)
     (hb : Sched.pre s₁ = Sched.pre s₂) (hf : Sched.firstFail s₁ = Sched.firstFail s₂) :
-    (readBom s₁).1 = (readBom s₂).1 ∧
-    (rdIsOk (readBom s₁).1 = true →
-      Sched.pre (readBom s₁).2 = Sched.pre (readBom s₂).2 ∧
-      Sched.firstFail (readBom s₁).2 = Sched.firstFail (readBom s₂).2) := by
-  obtain ⟨a1, a2⟩ := readBom_spec s₁ h₁
-  obtain ⟨b1, b2⟩ := readBom_spec s₂ h₂
+    (readBomPush s₁).1 = (readBomPush s₂).1 ∧
+    (rdIsOk (readBomPush s₁).1 = true →
+      Sched.pre (readBomPush s₁).2 = Sched.pre (readBomPush s₂).2 ∧
+      Sched.firstFail (readBomPush s₁).2 = Sched.firstFail (readBomPush s₂).2) := by
+  obtain ⟨a1, a2⟩ := readBomPush_spec s₁
+  obtain ⟨b1, b2⟩ := readBomPush_spec s₂
   rw [hb, hf] at a1; rw [hb, hf] at a2
   refine ⟨a1.trans b1.symm, fun h => ?_⟩
-  have h' : rdIsOk (readBom s₂).1 = true := by rw [b1, ← a1]; exact h
+  have h' : rdIsOk (readBomPush s₂).1 = true := by rw [b1, ← a1]; exact h
   obtain ⟨p1, f1⟩ := a2 h
   obtain ⟨p2, f2⟩ := b2 h'
   exact ⟨p1.trans p2.symm, f1.trans f2.symm⟩
 
-/-- The general form, faults included: when the BOM sniffing of both schedules sees at least
-three bytes (or nothing) in its first non-empty chunk, the outcome is determined by the bytes
-delivered before the first fatal error and by that error. -/
-theorem decode_prefix_determined_partial (D : LineDecoder σ) (s₁ s₂ : Sched)
-    (h₁ : bomOk s₁ = true) (h₂ : bomOk s₂ = true)
+/-- The general form, faults included: the outcome is determined by the bytes delivered before
+the first fatal error and by that error — however the bytes are cut into chunks, down to single
+bytes and including a first chunk shorter than a BOM. -/
+theorem decode_prefix_determined (D : LineDecoder σ) (s₁ s₂ : Sched)
     (hb : Sched.pre s₁ = Sched.pre s₂) (hf : Sched.firstFail s₁ = Sched.firstFail s₂) :
     decodeSched D s₁ = decodeSched D s₂ := by
-  rw [decodeSched_spec D s₁ h₁, decodeSched_spec D s₂ h₂, hb, hf]
+  rw [decodeSched_spec D s₁, decodeSched_spec D s₂, hb, hf]
 
-/-- **C08, proved part.** For fault-free schedules whose first non-empty chunk has at least three
-bytes (`bomOk`; also true of the empty stream), the outcome is a function of the bytes alone. -/
-theorem decode_schedule_irrelevant_partial (D : LineDecoder σ) (s₁ s₂ : Sched)
-    (n₁ : noFail s₁ = true) (n₂ : noFail s₂ = true) (hb : Sched.bytes s₁ = Sched.bytes s₂)
-    (h₁ : bomOk s₁ = true) (h₂ : bomOk s₂ = true) :
+/-- **C08.** For fault-free schedules the outcome is a function of the bytes alone. -/
+theorem decode_schedule_irrelevant (D : LineDecoder σ) (s₁ s₂ : Sched)
+    (n₁ : noFail s₁ = true) (n₂ : noFail s₂ = true) (hb : Sched.bytes s₁ = Sched.bytes s₂) :
     decodeSched D s₁ = decodeSched D s₂ :=
-  decode_prefix_determined_partial D s₁ s₂ h₁ h₂
+  decode_prefix_determined D s₁ s₂
     (by rw [noFail_pre n₁, noFail_pre n₂, hb]) (by rw [noFail_firstFail n₁, noFail_firstFail n₂])
 
-/-- non-vacuity: single bytes after a three-byte first chunk, with interruptions. -/
-example :
-    noFail [.chunk [0x5B, 0x47, 0x5D], .intr, .chunk [0x0A], .chunk [], .chunk [0x41]] = true ∧
-    bomOk [.chunk [0x5B, 0x47, 0x5D], .intr, .chunk [0x0A], .chunk [], .chunk [0x41]] = true ∧
-    bomOk [.intr, .chunk [], .chunk [0x5B, 0x47, 0x5D, 0x0A, 0x41]] = true ∧
-    Sched.bytes [.chunk [0x5B, 0x47, 0x5D], .intr, .chunk [0x0A], .chunk [], .chunk [0x41]] =
-      Sched.bytes [.intr, .chunk [], .chunk [0x5B, 0x47, 0x5D, 0x0A, 0x41]] := by decide
+/-- in particular every fault-free schedule decodes like `from_bytes` of its bytes. -/
+theorem decode_schedule_eq_from_bytes (D : LineDecoder σ) (s : Sched) (n : noFail s = true) :
+    decodeSched D s = decodeBytes D (Sched.bytes s) := by
+  unfold decodeBytes
+  apply decode_schedule_irrelevant D _ _ n
+  · unfold Sched.ofBytes; cases Sched.bytes s <;> simp [noFail]
+  · unfold Sched.ofBytes; cases hb : Sched.bytes s <;> simp [Sched.bytes]
 
-/-- the property as stated: no condition on the first chunk. -/
-def decode_schedule_irrelevant_statement : Prop :=
-  ∀ (σ : Type) (D : LineDecoder σ) (s₁ s₂ : Sched),
-    noFail s₁ = true → noFail s₂ = true → Sched.bytes s₁ = Sched.bytes s₂ →
-    decodeSched D s₁ = decodeSched D s₂
+/-- non-vacuity: single bytes, a one-byte first chunk, interruptions, empty chunks. -/
+example :
+    noFail [.chunk [0x5B], .intr, .chunk [0x47, 0x5D], .chunk [0x0A], .chunk [], .chunk [0x41]] = true ∧
+    noFail [.intr, .chunk [], .chunk [0x5B, 0x47, 0x5D, 0x0A, 0x41]] = true ∧
+    Sched.bytes [.chunk [0x5B], .intr, .chunk [0x47, 0x5D], .chunk [0x0A], .chunk [], .chunk [0x41]] =
+      Sched.bytes [.intr, .chunk [], .chunk [0x5B, 0x47, 0x5D, 0x0A, 0x41]] := by decide
 
 /-- the bytes of `[General]⏎A`. -/
 def witnessBytes : List UInt8 := [0x5B, 0x47, 0x65, 0x6E, 0x65, 0x72, 0x61, 0x6C, 0x5D, 0x0A, 0x41]
@@ -185,18 +181,19 @@ def nCalls (r : Except IoKind Rec) : Nat :=
   | .ok st => st.calls.length
   | .error _ => 0
 
-theorem witness_outcomes :
-    nCalls (decodeSched recorder witness₁) = 0 ∧ nCalls (decodeSched recorder witness₂) = 1 := by
+/-- the schedules that separated the two deliveries before the repair of `read_bom` (former
+finding F4: a first chunk of one or two bytes was consumed and lost) now agree. -/
+example : nCalls (decodeSched recorder witness₁) = 1 ∧ nCalls (decodeSched recorder witness₂) = 1 := by
   decide
 
-/-- **The full statement is false of the code (finding F4)**: `read_bom` consumes a first chunk
-of one or two bytes and never looks at it again. Same bytes, fault-free, different outcome. -/
-theorem decode_schedule_irrelevant_false : ¬ decode_schedule_irrelevant_statement := by
-  intro h
-  have e := h Rec recorder witness₁ witness₂ (by decide) (by decide) (by decide)
-  have := witness_outcomes
-  rw [e] at this
-  omega
+/-- a BOM split across chunks (`EF | BB BF`, `FF | FE`), a prefix that already contains a line feed. -/
+example :
+    nCalls (decodeSched recorder (.chunk [0xEF] :: .chunk [0xBB, 0xBF] :: witness₁)) = 1 ∧
+    nCalls (decodeSched recorder [.chunk [0xFF], .chunk [0xFE], .chunk [0x5B], .chunk [0x00, 0x47],
+      .chunk [0x00, 0x65, 0x00, 0x6E, 0x00, 0x65, 0x00, 0x72, 0x00, 0x61, 0x00, 0x6C, 0x00, 0x5D, 0x00],
+      .chunk [0x0A], .chunk [0x00, 0x41, 0x00]]) = 1 ∧
+    nCalls (decodeSched recorder [.chunk [0x0A], .chunk [0x5B], .chunk [0x47, 0x65, 0x6E, 0x65, 0x72, 0x61, 0x6C, 0x5D, 0x0A, 0x41]]) = 1 := by
+  decide
 
 /-! ### (c) entry points -/
 
@@ -221,44 +218,21 @@ theorem pre_chunksOfFuel (c f : Nat) (bs : List UInt8) (hc : 0 < c) (hf : bs.len
       simp only [chunksOfFuel, List.isEmpty_cons, Bool.false_eq_true, if_false, Sched.pre, Sched.firstFail,
         i1, i2, List.take_append_drop, and_self]
 
-/-- **A `BufReader` of capacity `c ≥ 3`** over the bytes delivers `c`-byte chunks; it decodes like
+/-- **A `BufReader` of any capacity `c ≥ 1`** over the bytes delivers `c`-byte chunks; it decodes like
 `from_bytes`. -/
-theorem entry_points_agree (D : LineDecoder σ) (c : Nat) (bs : List UInt8) (hc : 3 ≤ c) :
+theorem entry_points_agree (D : LineDecoder σ) (c : Nat) (bs : List UInt8) (hc : 1 ≤ c) :
     decodeSched D (Sched.chunksOf c bs) = decodeBytes D bs := by
-  by_cases hl : 3 ≤ bs.length
-  · obtain ⟨p, f⟩ := pre_chunksOfFuel c bs.length bs (by omega) (Nat.le_refl _)
-    apply decode_prefix_determined_partial
-    · unfold Sched.chunksOf
-      match bs, hl with
-      | a :: b :: d :: t, _ =>
-        simp only [List.length_cons, chunksOfFuel, List.isEmpty_cons, Bool.false_eq_true, if_false, bomOk]
-        match c, hc with
-        | c' + 3, _ => simp
-    · match bs, hl with
-      | a :: b :: d :: t, _ => simp [Sched.ofBytes, bomOk]
-    · rw [show Sched.chunksOf c bs = chunksOfFuel c bs.length bs from rfl, p]
-      unfold Sched.ofBytes; cases bs <;> simp [Sched.pre]
-    · rw [show Sched.chunksOf c bs = chunksOfFuel c bs.length bs from rfl, f]
-      unfold Sched.ofBytes; cases bs <;> simp [Sched.firstFail]
-  · -- fewer than three bytes: the buffer is filled once, the schedule *is* the one-chunk schedule
-    have : Sched.chunksOf c bs = Sched.ofBytes bs := by
-      unfold Sched.chunksOf Sched.ofBytes
-      match bs, hl with
-      | [], _ => rfl
-      | [a], _ =>
-        have : List.take c [a] = [a] := List.take_of_length_le (by simp; omega)
-        have : List.drop c [a] = [] := List.drop_of_length_le (by simp; omega)
-        simp [chunksOfFuel, *]
-      | [a, b], _ =>
-        have : List.take c [a, b] = [a, b] := List.take_of_length_le (by simp; omega)
-        have : List.drop c [a, b] = [] := List.drop_of_length_le (by simp; omega)
-        simp [chunksOfFuel, *]
-      | _ :: _ :: _ :: _, h => exact absurd (by simp) h
-    rw [this]; rfl
+  obtain ⟨p, f⟩ := pre_chunksOfFuel c bs.length bs (by omega) (Nat.le_refl _)
+  apply decode_prefix_determined
+  · rw [show Sched.chunksOf c bs = chunksOfFuel c bs.length bs from rfl, p]
+    unfold Sched.ofBytes; cases bs <;> simp [Sched.pre]
+  · rw [show Sched.chunksOf c bs = chunksOfFuel c bs.length bs from rfl, f]
+    unfold Sched.ofBytes; cases bs <;> simp [Sched.firstFail]
 
-/-- …and a capacity below three does not (finding F4, `BufReader::with_capacity(2, …)`). -/
-theorem small_capacity_loses_bytes :
-    nCalls (decodeSched recorder (Sched.chunksOf 2 witnessBytes)) = 0 ∧
+/-- capacities one and two (former finding F4, `BufReader::with_capacity(2, …)`) included. -/
+example :
+    nCalls (decodeSched recorder (Sched.chunksOf 2 witnessBytes)) = 1 ∧
+    nCalls (decodeSched recorder (Sched.chunksOf 1 witnessBytes)) = 1 ∧
     nCalls (decodeBytes recorder witnessBytes) = 1 := by
   decide
 
